@@ -109,10 +109,10 @@ Section RunApp.
     apply in_or_app. right. apply in_or_app. right. exact Hk.
   Qed.
 
-  Lemma task_ok_body locals pobjs :
-    Forall (task_ok (build_plan sc locals pobjs)) (body_tasks (build_plan sc locals pobjs)).
+  Lemma task_ok_body known locals pobjs :
+    Forall (task_ok (build_plan sc known locals pobjs)) (body_tasks (build_plan sc known locals pobjs)).
   Proof.
-    pose proof (tasks_of_ok sc locals pobjs) as F. rewrite tasks_of_body in F.
+    pose proof (tasks_of_ok sc known locals pobjs) as F. rewrite tasks_of_body in F.
     apply Forall_app in F. tauto.
   Qed.
 End RunApp.
